@@ -344,6 +344,33 @@ fn shape_edge_cases(out: &mut Vec<Case>) {
             }),
         });
     }
+    // Sibling directories whose names extend one another with a byte below '/', the shorter one
+    // holding a nested directory: comparing whole paths, or directory strings, as bytes orders
+    // them differently from the component-wise rule. And names the index has to escape.
+    for hunk in [2usize, 1000] {
+        out.push(Case {
+            tag: format!("edges: prefix-named sibling directories with nested contents, escaped names, hunk={hunk}"),
+            opts: BOpts::new(hunk, 8, 6),
+            sweep: "large",
+            tree: Box::new(|| {
+                let mut t = empty_tree();
+                for (i, d) in ["a", "a-b", "a.d", "a b", "a!", "conf", "conf.d"].iter().enumerate() {
+                    t.insert(d.to_string(), Node::dir(T0 + 240 + i as i64));
+                    t.insert(format!("{d}/y{i}"), Node::file(format!("in {d}").as_bytes(), T0 + 250 + i as i64));
+                }
+                t.insert("a/c".into(), Node::dir(T0 + 260));
+                t.insert("a/c/x".into(), Node::file(b"nested", T0 + 261));
+                t.insert("conf/sub".into(), Node::dir(T0 + 262));
+                t.insert("conf/sub/deep".into(), Node::file(b"deep", T0 + 263));
+                t.insert("a/q\"uote".into(), Node::file(b"quote", T0 + 264));
+                t.insert("a/back\\slash".into(), Node::file(b"backslash", T0 + 265));
+                t.insert("a/new\nline".into(), Node::symlink("c", T0 + 266));
+                t.insert("tab\there".into(), Node::dir(T0 + 267));
+                t.insert("tab\there/in".into(), Node::file(b"tab", T0 + 268));
+                t
+            }),
+        });
+    }
     out.push(Case {
         tag: "edges: names that look like the archive's own files".into(),
         opts: BOpts::new(2, 8, 3),
